@@ -984,6 +984,19 @@ def dispatch_paths(cfg, rng, maxn=5, maxlen=4):
     return out
 
 
+def c12_directed():
+    """dispatchers whose rejected branch target is ALSO reached from a later block of the function body"""
+    out = []
+    for chk in (["global GroupSize", "int 2", "=="], ["txn Fee", "int 1000", "<="], ["txn RekeyTo", "global ZeroAddress", "=="], ["txn GroupIndex", "int 0", "=="]):
+        for br in ("bnz", "bz"):
+            neg = [] if br == "bnz" else ["!"]
+            out.append("\n".join(["#pragma version 6", "txn NumAppArgs", "int 0", "=="] + neg + [f"{br} done"] + chk + neg + [f"{br} done", "int 0", "return", "done:", "int 1", "return"]))
+            out.append("\n".join(["#pragma version 6", "txn NumAppArgs", "int 0", "=="] + neg + [f"{br} done", "txn NumAppArgs", "int 1", "=="] + neg + [f"{br} second", "err", "second:"] + chk + ["assert", "b done", "done:", "int 1", "return"]))
+            # shortcut over a then-block inside the function body
+            out.append("\n".join(["#pragma version 6", "txn NumAppArgs", "int 0", "=="] + neg + [f"{br} other", "txn NumAppArgs", "int 1", "=="] + neg + [f"{br} skip"] + chk + ["assert", "skip:", "int 1", "return", "other:", "int 1", "return"]))
+    return out
+
+
 def run_c12(ctx):
     cov = ctx["cov"]
     rng = ctx["rng"]
@@ -992,8 +1005,19 @@ def run_c12(ctx):
     for k in range(nprog):
         t, _ = gen.random_program(rng)
         progs.append((f"rand{k}", t))
+    # kf-free random programs and directed dispatchers (a join block shared by a rejected dispatcher branch and the function
+    # body; a shortcut edge over a then-block): on these the semantic clause of C12 is decided by the interpreter oracle
+    oracle_ok = set()
+    for k in range(nprog // 2):
+        t, _ = gen.random_program(rng, kf_free=True)
+        progs.append((f"kf{k}", t))
+        oracle_ok.add(f"kf{k}")
+    for k, t in enumerate(c12_directed()):
+        progs.append((f"dir{k}", t))
+        oracle_ok.add(f"dir{k}")
     creqs = [("cfg", f"c{n}", t, []) for n, (_, t) in enumerate(progs)]
     cm, _ci = corr.run_both(creqs)
+    ci_by_text = {t: _ci[f"c{n}"] for n, (_, t) in enumerate(progs)}
     reqs = []
     meta = {}
     for n, (name, t) in enumerate(progs):
@@ -1008,6 +1032,7 @@ def run_c12(ctx):
     _, i2 = corr.run_both(reqs, impl_env={"VERIF_OTHER_FUNCTIONS_FIRST": "1"})
     nd = 0
     long_paths = 0
+    c12_facts = {"on_path": 0, "facts": 0}
     for kind, rid, t, path in reqs:
         a, b = m[rid], i[rid]
         if len(path) > 1:
@@ -1023,6 +1048,31 @@ def run_c12(ctx):
             nd += 1
             if nd <= 3:
                 ctx["broken"].append(f"correspondence (function for dispatch path {path}) on {meta[rid][0]}: {d[0][:300]} || program: {t!r}")
+        # independent reading of the function the implementation built: (i) successor and predecessor lists mirror each other,
+        # (ii) its contexts admit every approved execution of the contract whose block sequence starts with the dispatch path
+        if isinstance(b, dict) and "edges" in b and len(ctx["violations"]) < 3:
+            ed = b["edges"]
+            real = lambda z: int(z) < 65536   # error blocks (id = (k<<16)+k of the block they replace) can share an id when two path blocks are cut from the same successor: the dump by id is not injective on them
+            dup_ids = len(set(b.get("fn_blocks", []))) != len(b.get("fn_blocks", []))   # e.g. the error block replacing block 0 has id 0
+            for x, e in ([] if dup_ids else ed.items()):
+                if not real(x):
+                    continue
+                bad = [y for y in e["next"] if real(y) and y in ed and x not in ed[y]["prev"]] + [y for y in e["prev"] if real(y) and y in ed and x not in ed[y]["next"]]
+                if bad:
+                    ctx["violations"].append((f"{meta[rid][0]} path {path}: in the function's graph block {x} and block {bad[0]} disagree about the edge between them (next {e['next']} / prev {e['prev']}; {bad[0]}: next {ed[bad[0]]['next']} / prev {ed[bad[0]]['prev']})",
+                                              {"kind": "function-graph-mirror", "program": t, "dispatch_path": path}))
+                    break
+            ci = ci_by_text.get(t)
+            if meta[rid][0] in oracle_ok and "ctx" in b and isinstance(ci, dict) and "blocks" in ci:
+                envs = oracle.make_envs(t, rng, 16 if ctx["tier"] == "quick" else 60)
+                v, st = oracle.check_program(t, {"blocks": ci["blocks"], "ctx": b["ctx"]}, envs, path_prefix=[int(x) for x in path])
+                c12_facts["on_path"] += st.get("on_path", 0)
+                c12_facts["facts"] += st["facts"]
+                v = [x for x in v if x["property"] in ("C06", "C07", "C08", "C09", "C10")]
+                if v:
+                    ctx["violations"].append((f"{meta[rid][0]} path {path}: {v[0]['what']} (an approved execution of the contract that starts with the dispatch path)",
+                                              {"kind": "function-context-unsound", "program": t, "dispatch_path": path, "env": v[0]["env"], "trace_blocks": v[0]["trace_blocks"]}))
+    cov["function_oracle"] = c12_facts
     cov["traces_validated_against_impl"] = len(reqs)
     cov["evaluations"] = len(reqs)
     cov["distinct_nontrivial"] = long_paths
@@ -1853,12 +1903,88 @@ def avm_names():
     return d
 
 
+NO_FALL = ("retsub", "return", "err", "b ")
+
+
+def move_subroutines(rng, text):
+    """the rewrite 'moving whole subroutine bodies': the program is cut at the labels that are callsub targets; when the
+    part before the first such label and every body end in an instruction that never falls through (retsub / return / err / b),
+    the bodies are permuted (a random permutation different from the identity).  Returns the new text or None."""
+    lines = text.split("\n")
+    targets = {l.split()[1] for l in lines if l.strip().startswith("callsub ") and len(l.split()) >= 2}
+    cuts = [k for k, l in enumerate(lines) if l.strip().endswith(":") and l.strip()[:-1] in targets and "//" not in l]
+    if len(cuts) < 2:
+        return None
+    segs = [lines[:cuts[0]]] + [lines[a:b] for a, b in zip(cuts, cuts[1:] + [len(lines)])]
+
+    def last_ins(seg):
+        for l in reversed(seg):
+            t = l.split("//")[0].strip()
+            if t and not t.endswith(":"):
+                return t
+        return ""
+    if not all(last_ins(sg).startswith(NO_FALL) or last_ins(sg) in ("retsub", "return", "err") for sg in segs):
+        return None
+    bodies = segs[1:]
+    perm = list(range(len(bodies)))
+    for _ in range(6):
+        rng.shuffle(perm)
+        if perm != sorted(perm):
+            break
+    else:
+        return None
+    return "\n".join(segs[0] + [l for k in perm for l in bodies[k]])
+
+
+def nested_call_program(rng):
+    """a contract with 3-5 levels of call nesting (main -> A -> B -> C ..), each level checking or passing, bodies in
+    random textual order, main first or behind a `b main` -- the layouts that 'moving subroutine bodies' ranges over"""
+    depth = rng.randrange(3, 6)
+    names = [f"lvl{k}" for k in range(depth)]
+    bodies = []
+    for k, nm in enumerate(names):
+        body = [f"{nm}:"]
+        if rng.random() < 0.5:
+            body += rng.choice([["txn RekeyTo", "global ZeroAddress", "==", "assert"], ["txn Fee", "int 1000", "<=", "assert"],
+                                ["txn OnCompletion", "int UpdateApplication", "!=", "assert"], ["global GroupSize", "int 2", "==", "assert"]])
+        if k + 1 < depth:
+            body += [f"callsub {names[k + 1]}"]
+        body += ["retsub"]
+        bodies.append(body)
+    rng.shuffle(bodies)
+    main = ["txn CloseRemainderTo", "global ZeroAddress", "==", "assert", f"callsub {names[0]}", "int 1", "return"]
+    if rng.random() < 0.5:
+        return "\n".join(["#pragma version 6"] + main + [l for b in bodies for l in b])
+    return "\n".join(["#pragma version 6", "b main"] + [l for b in bodies for l in b] + ["main:"] + main)
+
+
+def by_text(res):
+    """the observables of an `analyze` answer in a form that does not mention block numbers: every block is named by the
+    printed text of its instructions"""
+    name = {str(b["idx"]): tuple(b["ins"]) for b in res.get("blocks", [])}
+    ctxs = sorted((name.get(str(b), (str(b),)), tuple(sorted(c.items()))) for b, c in res["ctx"].items())
+    paths = {d: ([tuple(name.get(str(b), (str(b),)) for b in p) for p in ps] if isinstance(ps, list) else ps) for d, ps in res["paths"].items()}
+    return ctxs, paths
+
+
 def run_c15(ctx):
     cov = ctx["cov"]
     rng = ctx["rng"]
     n = 80 if ctx["tier"] == "quick" else 800
     reqs, meta = [], {}
     srcs = [gen.random_program(rng)[0] for _ in range(n)] + [t for _, t in gen.adversarial_programs()]
+    # moving whole subroutine bodies (block numbers change: compared with blocks named by their text)
+    movers = [nested_call_program(rng) for _ in range(12 if ctx["tier"] == "quick" else 120)] + srcs
+    nmove = 0
+    for k, t in enumerate(movers):
+        t2 = move_subroutines(rng, t)
+        if t2 is None or (nmove >= (50 if ctx["tier"] == "quick" else 500)):
+            continue
+        nmove += 1
+        reqs.append(("analyze", f"mo{k}", t, []))
+        reqs.append(("analyze", f"mr{k}", t2, []))
+        meta[f"mr{k}"] = (f"mo{k}", "move", t, t2)
+    cov["moved_subroutine_cases"] = nmove
     for k, t in enumerate(srcs):
         reqs.append(("analyze", f"o{k}", t, []))
         for kind in ("labels", "comments", "ints", "padding", "beforelabel"):
@@ -1876,6 +2002,19 @@ def run_c15(ctx):
                     ctx["violations"].append((f"rewrite '{kind}' changes whether the {side} completes", {"kind": "rewrite-variance", "program": t, "rewritten": t2, "rewrite": kind}))
                 continue
             ncmp += 1
+            if kind == "move":
+                if a.get("structured") is False or b.get("structured") is False:
+                    continue
+                if by_text(a) != by_text(b):
+                    ca, pa = by_text(a)
+                    cb, pb = by_text(b)
+                    what = "contexts" if ca != cb else "reported paths"
+                    if side == "implementation":
+                        ctx["violations"].append((f"moving whole subroutine bodies changes the {what}", {"kind": "rewrite-variance", "program": t, "rewritten": t2, "rewrite": kind}))
+                    else:
+                        ctx["broken"].append(f"model is not invariant under moving subroutine bodies ({what}) on {t!r} vs {t2!r}")
+                    break
+                continue
             if kind == "beforelabel":
                 va = {d: bool(p) for d, p in a["paths"].items() if isinstance(p, list)}
                 vb = {d: bool(p) for d, p in b["paths"].items() if isinstance(p, list)}
